@@ -76,20 +76,95 @@ static std::string run_case(const Case& cs, Stat* st = nullptr) {
     return err;
 }
 
+// (4) range lattice: triangles of five shapes (acute, right, obtuse at a corner, sliver, scalene) stored in each of their three cyclic orders, placed obliquely in space; the node visits
+// a 3-D lattice around the triangle that extends well beyond the cut-offs in the plane and across it.  Oracle: no force and no coupling when the independently computed distance
+// exceeds the cut-off; reciprocity; nothing else loaded.
+static const double TRI2D[5][6] = {{0, 0, 1, 0, 0.5, 0.87}, {0, 0, 1, 0, 0, 1}, {0, 0, 1, 0, -1, 1}, {0, 0, 1, 0, 0.5, 0.08}, {0, 0, 1.4, 0.2, 0.3, 0.6}};
+static const double HEIGHTS[6] = {-0.35, -0.15, -0.05, 0.05, 0.15, 0.35};
+static const int LAT = 13;
+static std::string run_range(int tri, int rot, int cut, int ta, int tb, long* within, long* beyond, long* forces, int only = -1) {
+    char buf[500]; const double cadh = CADH[cut], crep = CREP[cut], cmax = std::max(cadh, crep);
+    // oblique orthonormal frame
+    vec3 ex = vec3(2, 1, -0.5).normalize(), ez = ex.cross(vec3(0.3, -1, 0.8)).normalize(), ey = ez.cross(ex); const vec3 org(3.1, -2.2, 1.7);
+    auto P = [&](double x, double y, double z) { return org + ex * x + ey * y + ez * z; };
+    vec3 t[3]; for (int k = 0; k < 3; k++) { int j = (k + rot) % 3; t[k] = P(TRI2D[tri][2*j], TRI2D[tri][2*j+1], 0); }
+    vec3 apex = (t[0] + t[1] + t[2]) / 3. - ez * 0.5;
+    sc::Mesh mb; for (const vec3& v : {t[0], t[1], t[2], apex}) { mb.pos.push_back(v.dx()); mb.pos.push_back(v.dy()); mb.pos.push_back(v.dz()); } mb.tri = {0, 1, 2, 1, 0, 3, 2, 1, 3, 0, 2, 3};
+    cell_ptr B = sc::make_cell(mb, 1, make_type((short)tb, 1), true); sc::Mesh ma; ma.pos = {0, 0, 0, 1, 0, 0, 0, 1, 0, 0, 0, 1}; ma.tri = {0, 1, 2, 0, 2, 3, 0, 3, 1, 1, 3, 2}; cell_ptr A = sc::make_cell(ma, 0, make_type((short)ta, 1), true);
+    std::vector<cell_ptr> cells = {A, B}; global_simulation_parameters sp = sc::make_sim_params("unused", 0.3); sp.contact_cutoff_adhesion_ = cadh; sp.contact_cutoff_repulsion_ = crep; Model model(sp);
+    std::string err; int idx = -1;
+    for (int ix = 0; ix < LAT && err.empty(); ix++) for (int iy = 0; iy < LAT && err.empty(); iy++) for (int ih = 0; ih < 6 && err.empty(); ih++) { idx++; if (only >= 0 && idx != only) continue;
+        const double x = -1.3 + 0.3 * ix, y = -1.3 + 0.3 * iy, h = HEIGHTS[ih], sgn = h > 0 ? 1.0 : -1.0; const vec3 p = P(x, y, h);
+        vec3 q[4] = {p, p + ez * (sgn * 0.3) + ex * 0.2, p + ez * (sgn * 0.3) + ex * (-0.1) + ey * 0.17, p + ez * (sgn * 0.3) + ex * (-0.1) + ey * (-0.17)};
+        if (sgn < 0) std::swap(q[2], q[3]);   // keep the tetrahedron oriented outward
+        for (int k = 0; k < 4; k++) A->node_lst_[k].pos_ = q[k];
+        prepare(cells); for (auto& c : cells) for (node& n : c->node_lst_) {
+#if CONTACT_MODEL_INDEX == 1
+            n.coupled_node_.reset();
+#elif CONTACT_MODEL_INDEX == 2
+            n.coupled_nodes_map_.clear();
+#endif
+        }
+        node& n0 = A->node_lst_[0]; face& f = B->face_lst_[0];
+        if (!node_prefilter(*A, n0) || !pair_prefilter(n0, f)) continue;
+        zero_forces(cells); narrow(model, A, B, n0, &f);
+        const vec3 a = B->node_lst_[f.n1_id_].pos_, b = B->node_lst_[f.n2_id_].pos_, c = B->node_lst_[f.n3_id_].pos_; const double d = (double)sqrtl(dist2_point_triangle(p, a, b, c)); if (d <= cmax) (*within)++; else (*beyond)++;
+        vec3 Fn = n0.force_, Ff = B->node_lst_[f.n1_id_].force_ + B->node_lst_[f.n2_id_].force_ + B->node_lst_[f.n3_id_].force_; const double fmag = Fn.norm(); if (fmag > 0) (*forces)++;
+        for (unsigned i = 1; i < A->node_lst_.size(); i++) if (A->node_lst_[i].force_.norm() != 0) err = "interaction-applied-force-to-an-uninvolved-node: node cell";
+        for (unsigned i = 0; i < B->node_lst_.size(); i++) if (i != f.n1_id_ && i != f.n2_id_ && i != f.n3_id_ && B->node_lst_[i].force_.norm() != 0) err = "interaction-applied-force-to-an-uninvolved-node: face cell";
+        bool coupled = false; double coupled_dist = 0;
+#if CONTACT_MODEL_INDEX == 1
+        if (n0.coupled_node_.has_value()) { coupled = true; auto [ci, ni] = n0.coupled_node_.value(); if (ci != 1 || ni >= B->node_lst_.size()) err = "coupling-designates-wrong-cell-or-node"; else coupled_dist = (B->node_lst_[ni].pos_ - p).norm(); }
+#elif CONTACT_MODEL_INDEX == 2
+        if (!n0.coupled_nodes_map_.empty()) { coupled = true; auto it = n0.coupled_nodes_map_.begin(); if (it->first != 1 || it->second.first >= B->node_lst_.size()) err = "coupling-designates-wrong-cell-or-node"; else coupled_dist = (B->node_lst_[it->second.first].pos_ - p).norm(); }
+#endif
+        if (err.empty() && (Fn + Ff).norm() > 1e-12 * std::max(fmag, Ff.norm())) { snprintf(buf, sizeof buf, "contact-force-not-reciprocal: force on node (%.9g,%.9g,%.9g), sum on the triangle (%.9g,%.9g,%.9g)", Fn.dx(), Fn.dy(), Fn.dz(), Ff.dx(), Ff.dy(), Ff.dz()); err = buf; }
+        const bool pos_forbidden = forbidden_is_positive_side(ta, tb), on_forbidden = pos_forbidden ? (h > 0) : (h < 0); const double range_cut = (CONTACT_MODEL_INDEX == 0) ? (on_forbidden ? crep : cadh) : cmax;
+        if (err.empty() && d > range_cut * (1 + 1e-9) && fmag > 0) { snprintf(buf, sizeof buf, "contact-force-beyond-the-cutoff: distance %.9g cut-off %.9g |F| = %.9g", d, range_cut, fmag); err = buf; }
+        if (err.empty() && coupled && coupled_dist > cadh * (1 + 1e-9)) { snprintf(buf, sizeof buf, "coupling-beyond-the-adhesion-cutoff: node distance %.9g cut-off %.9g", coupled_dist, cadh); err = buf; }
+        if (!err.empty()) { snprintf(buf, sizeof buf, " [node at in-plane (%.2f,%.2f) height %.2f of triangle shape %d stored from corner %d, lattice index %d]", x, y, h, tri, rot, idx); err += buf; } }
+    A->clear_data(); B->clear_data(); return err;
+}
+
 // whole tissues: net contact force zero; far cells do not interact; a single concave cell does not interact with itself
-static std::string run_tissue(int ox, int cut, int ta, int tb, long* nonzero) {
+struct TissueOut { std::vector<vec3> f; std::vector<long> coupling; };
+static std::string run_tissue_ids(int ox, int cut, int ta, int tb, int ids, long* nonzero, TissueOut* out) {
     char buf[300]; auto mk = [&](const sc::Mesh& m, short t, unsigned id) { return sc::make_cell(m, id, make_type(t, 2), true); };
-    std::vector<cell_ptr> cells = {mk(sc::icosphere(1), (short)ta, 0), mk(sc::translated(sc::icosphere(1), 0.25 * ox, 0.1, -0.05), (short)tb, 1)}; prepare(cells); for (auto& c : cells) for (unsigned i = 0; i < c->face_lst_.size(); i++) c->face_lst_[i].type_id_ = i % 3;
+    std::vector<cell_ptr> cells = {mk(sc::icosphere(1), (short)ta, 0), mk(sc::translated(sc::icosphere(1), 0.25 * ox, 0.1, -0.05), (short)tb, 1)}; prepare(cells, ids); for (auto& c : cells) for (unsigned i = 0; i < c->face_lst_.size(); i++) c->face_lst_[i].type_id_ = i % 3;
     global_simulation_parameters sp = sc::make_sim_params("unused", 0.3); sp.contact_cutoff_adhesion_ = CADH[cut]; sp.contact_cutoff_repulsion_ = CREP[cut]; Model model(sp); zero_forces(cells); model.run(cells);
     vec3 net(0, 0, 0); double sumabs = 0; for (auto& c : cells) for (node& n : c->node_lst_) if (n.is_used_) { net = net + n.force_; sumabs += n.force_.norm(); }
-    std::string err; if (sumabs > 0) { (*nonzero)++; if (net.norm() > 1e-9 * sumabs) { snprintf(buf, sizeof buf, "contact-adds-net-force-to-the-tissue: |sum F| = %.6g of sum|F| = %.6g", net.norm(), sumabs); err = buf; } }
+    std::string err; if (sumabs > 0) { if (nonzero) (*nonzero)++; if (net.norm() > 1e-9 * sumabs) { snprintf(buf, sizeof buf, "contact-adds-net-force-to-the-tissue: |sum F| = %.6g of sum|F| = %.6g", net.norm(), sumabs); err = buf; } }
     double gap = 0.25 * std::abs(ox) - 2.0; if (err.empty() && gap > std::max(CADH[cut], CREP[cut]) * 1.5 && sumabs > 0) { snprintf(buf, sizeof buf, "contact-force-between-cells-farther-apart-than-the-cutoffs: gap %.6g", gap); err = buf; }
+    // no coupling between elements of the same cell (the partner is designated by list position)
+    for (unsigned ci = 0; ci < cells.size() && err.empty(); ci++) for (node& n : cells[ci]->node_lst_) if (n.is_used_) {
+#if CONTACT_MODEL_INDEX == 1
+        if (n.coupled_node_.has_value() && n.coupled_node_->first == ci) err = "coupling-between-elements-of-the-same-cell";
+#elif CONTACT_MODEL_INDEX == 2
+        for (auto& kv : n.coupled_nodes_map_) if (kv.first == ci) err = "coupling-between-elements-of-the-same-cell";
+#endif
+    }
+    if (out) for (auto& c : cells) for (node& n : c->node_lst_) { out->f.push_back(n.is_used_ ? n.force_ : vec3(0, 0, 0));
+#if CONTACT_MODEL_INDEX == 1
+        out->coupling.push_back(n.is_used_ && n.coupled_node_.has_value() ? (long)n.coupled_node_->first * 100000 + (long)n.coupled_node_->second : -1);
+#elif CONTACT_MODEL_INDEX == 2
+        long h = 0; if (n.is_used_) for (auto& kv : n.coupled_nodes_map_) h += ((long)kv.first * 100000 + (long)kv.second.first + 1) * 7919; out->coupling.push_back(h);
+#else
+        out->coupling.push_back(-1);
+#endif
+    }
     for (auto& c : cells) c->clear_data(); return err;
 }
-static std::string run_self(int type, int cut) {
+// the persistent cell ids are labels: the same two cells carrying the ids of a later point of a run (after removals / divisions) receive exactly the same contact forces and couplings
+static std::string run_tissue(int ox, int cut, int ta, int tb, long* nonzero, int* failing_ids = nullptr) {
+    TissueOut ref; std::string err = run_tissue_ids(ox, cut, ta, tb, 0, nonzero, &ref); if (failing_ids) *failing_ids = 0; if (!err.empty()) return err;
+    for (int ids = 1; ids < N_ID_SCHEMES; ids++) { TissueOut o; err = run_tissue_ids(ox, cut, ta, tb, ids, nullptr, &o); if (failing_ids) *failing_ids = ids; if (!err.empty()) return err + " (cell ids " + std::to_string(scheme_id(ids, 0)) + "," + std::to_string(scheme_id(ids, 1)) + ")";
+        for (size_t i = 0; i < ref.f.size(); i++) if ((o.f[i] - ref.f[i]).norm() > 1e-12 * (1 + ref.f[i].norm()) || o.coupling[i] != ref.coupling[i]) { char buf[300]; snprintf(buf, sizeof buf, "contact-result-depends-on-the-persistent-cell-ids: node slot %zu receives force (%.6g,%.6g,%.6g) with ids %u,%u and (%.6g,%.6g,%.6g) with ids 0,1", i, o.f[i].dx(), o.f[i].dy(), o.f[i].dz(), scheme_id(ids, 0), scheme_id(ids, 1), ref.f[i].dx(), ref.f[i].dy(), ref.f[i].dz()); return buf; } }
+    if (failing_ids) *failing_ids = 0; return "";
+}
+static std::string run_self(int type, int cut, int ids = 0) {
     // a dumbbell-like concave cell: two lobes whose surfaces come within the cut-off of each other
     sc::Mesh m = sc::icosphere(2); for (size_t i = 0; i < m.nv(); i++) { double x = m.pos[3*i]; double r = 0.25 + 0.75 * x * x; m.pos[3*i+1] *= r; m.pos[3*i+2] *= r; if (std::fabs(x) < 0.2) { m.pos[3*i+1] *= 0.1; m.pos[3*i+2] *= 0.1; } }
-    cell_ptr c = sc::make_cell(m, 0, make_type((short)type, 1), true); std::vector<cell_ptr> cells = {c}; prepare(cells);
+    cell_ptr c = sc::make_cell(m, 0, make_type((short)type, 1), true); std::vector<cell_ptr> cells = {c}; prepare(cells, ids);
     global_simulation_parameters sp = sc::make_sim_params("unused", 0.3); sp.contact_cutoff_adhesion_ = CADH[cut] * 2; sp.contact_cutoff_repulsion_ = CREP[cut] * 2; Model model(sp); zero_forces(cells); model.run(cells);
     std::string err; for (node& n : c->node_lst_) if (n.is_used_) { if (n.force_.norm() != 0) err = "contact-force-between-elements-of-the-same-cell";
 #if CONTACT_MODEL_INDEX == 1
@@ -109,17 +184,23 @@ static void explore(Result& R) {
         if (cases % 4000 == 1) R.sample(case_json(c)); }
     for (int ox = -12; ox <= 12; ox++) for (int cu = 0; cu < 2; cu++) for (int ta = 0; ta < 5; ta++) for (int tb = 0; tb < 5; tb++) { tissues++; std::string e = run_tissue(ox, cu, ta, tb, &nonzero);
         if (!e.empty()) R.violation(clause_of(e) + "|types=" + std::to_string(ta) + ">" + std::to_string(tb), "two icospheres, offset " + std::to_string(0.25 * ox) + ", types " + std::to_string(ta) + "," + std::to_string(tb) + ": " + e, "mode=tissue\nox=" + std::to_string(ox) + "\ncut=" + std::to_string(cu) + "\nta=" + std::to_string(ta) + "\ntb=" + std::to_string(tb) + "\n"); }
-    for (int t = 0; t < 5; t++) for (int cu = 0; cu < 2; cu++) { tissues++; std::string e = run_self(t, cu); if (!e.empty()) R.violation(clause_of(e), "single concave cell of type " + std::to_string(t) + ": " + e, "mode=self\ntype=" + std::to_string(t) + "\ncut=" + std::to_string(cu) + "\n"); }
+    for (int t = 0; t < 5; t++) for (int cu = 0; cu < 2; cu++) for (int ids = 0; ids < N_ID_SCHEMES; ids++) { tissues++; std::string e = run_self(t, cu, ids); if (!e.empty()) R.violation(clause_of(e), "single concave cell of type " + std::to_string(t) + " with id " + std::to_string(scheme_id(ids, 0)) + " at list position 0: " + e, "mode=self\ntype=" + std::to_string(t) + "\ncut=" + std::to_string(cu) + "\nids=" + std::to_string(ids) + "\n"); }
+    long within = 0, beyond = 0, rforces = 0, lattices = 0;
+    for (int tri = 0; tri < 5; tri++) for (int rot = 0; rot < 3; rot++) for (int cu = 0; cu < 2; cu++) for (int ta = 0; ta < 5; ta++) for (int tb = 0; tb < 5; tb++) { lattices++; std::string e = run_range(tri, rot, cu, ta, tb, &within, &beyond, &rforces);
+        if (!e.empty()) { int only = atoi(e.c_str() + e.rfind("lattice index ") + 14); R.violation(clause_of(e) + "|types=" + std::to_string(ta) + ">" + std::to_string(tb) + "|range-lattice", e, "mode=range\ntri=" + std::to_string(tri) + "\nrot=" + std::to_string(rot) + "\ncut=" + std::to_string(cu) + "\nta=" + std::to_string(ta) + "\ntb=" + std::to_string(tb) + "\nonly=" + std::to_string(only) + "\n"); } }
+    R["range_lattice_placements_within_cutoff"] = within; R["range_lattice_placements_beyond_cutoff"] = beyond; R["range_lattice_placements_with_force"] = rforces; cases += within + beyond;
+    if (R.violations.empty() && (!within || !beyond || !rforces)) R.internal_error = "range lattice vacuous";
     R["evaluations"] = cases + tissues; R["states"] = cases + tissues; R["transitions"] = cases + tissues; R["distinct_nontrivial"] = cases + tissues; R["traces_validated_against_impl"] = cases + tissues;
     R["single_interactions"] = cases; R["interactions_with_force"] = st.forces; R["interactions_with_coupling"] = st.couplings; R["interactions_with_no_effect"] = st.nothing; R["interactions_rejected_by_the_models_own_prefilter"] = st.prefiltered; R["forces_on_forbidden_side_checked_for_direction"] = st.forbidden_forces; R["tissues"] = tissues; R["tissues_with_contact_force"] = nonzero;
     R.tables["build"]["contact_model_index"] = CONTACT_MODEL_INDEX;
     if (R.violations.empty() && (!st.forces || !st.forbidden_forces || !nonzero)) R.internal_error = "no contact force was ever produced (vacuous)";
-    R.strings["rule"] = "single interactions: every ordered pair of the five cell types x 7 signed distances (in units of the relevant cut-off, both sides of the surface) x node above the interior / an edge / a vertex of the triangle x 3 strength sets x 2 cut-off pairs x 3 faces x 2 meshes, run through the model's own narrow-phase routine with force increments read back; tissues: two icospheres at 25 offsets x type pairs through contact_model::run; single concave cells";
+    R.strings["rule"] = "single interactions: every ordered pair of the five cell types x 7 signed distances (in units of the relevant cut-off, both sides of the surface) x node above the interior / an edge / a vertex of the triangle x 3 strength sets x 2 cut-off pairs x 3 faces x 2 meshes, run through the model's own narrow-phase routine with force increments read back; tissues: two icospheres at 25 offsets x type pairs x 4 persistent-id assignments (start-up ids, ids after a removal at the list head / in the middle, late ids) through contact_model::run, forces and couplings identical for all id assignments; single concave cells x the same id assignments; range lattice: 5 triangle shapes x 3 stored orders x 13x13x6 node placements (up to 1.3 edge lengths beyond the triangle, 0.05-0.35 off its plane) x type pairs x cut-off pairs through the narrow phase";
     R.assumptions = {"forbidden side = behind the triangle normal, except epithelial node / ECM triangle and nucleus node / epithelial triangle where it is in front of it", "range: model 0 is held to the cut-off of the regime (adhesion in front, repulsion behind), the coupling models to the larger of the two (their rule)", "a repulsive force is demanded within the repulsion cut-off on the forbidden side unless the pair is epithelial-epithelial in a coupling model (which may couple instead)", "pairs rejected by the model's own node/normal pre-filters are counted, not judged"};
 }
 static int replay(const Replay& rp, Result& R) { std::string e1, e2, m = rp.get("mode"); long nz = 0;
     if (m == "pair") { Case c; std::istringstream i(rp.get("case")); i >> c.ta >> c.tb >> c.depth >> c.base >> c.strength >> c.cut >> c.face >> c.meshb; e1 = run_case(c); e2 = run_case(c); printf("%s\n", case_json(c).c_str()); }
+    else if (m == "range") { long a = 0, b = 0, c = 0; auto go = [&] { return run_range((int)rp.geti("tri"), (int)rp.geti("rot"), (int)rp.geti("cut"), (int)rp.geti("ta"), (int)rp.geti("tb"), &a, &b, &c, (int)rp.geti("only", -1)); }; e1 = go(); e2 = go(); }
     else if (m == "tissue") { e1 = run_tissue((int)rp.geti("ox"), (int)rp.geti("cut"), (int)rp.geti("ta"), (int)rp.geti("tb"), &nz); e2 = run_tissue((int)rp.geti("ox"), (int)rp.geti("cut"), (int)rp.geti("ta"), (int)rp.geti("tb"), &nz); }
-    else { e1 = run_self((int)rp.geti("type"), (int)rp.geti("cut")); e2 = run_self((int)rp.geti("type"), (int)rp.geti("cut")); }
+    else { int ids = (int)rp.geti("ids", 0); e1 = run_self((int)rp.geti("type"), (int)rp.geti("cut"), ids); e2 = run_self((int)rp.geti("type"), (int)rp.geti("cut"), ids); }
     if (e1 != e2) { printf("replay diverged\n"); return 0; } printf("%s\n", e1.c_str()); if (!e1.empty()) { R.violation(clause_of(e1), e1, ""); return 1; } return 0; }
 int main(int argc, char** argv) { return run_main(argc, argv, "C07", explore, replay); }
